@@ -189,7 +189,13 @@ class World:
         base = model.model if isinstance(model, vc.TransformedModel) else model
         x = self.inputs[f"x_{m}"]
         sample = self.inputs[f"sample_{m}"]
-        np.random.seed(12345)
+        # Evaluations whose inputs fix the result (explicit random_state, supplied sample, no Monte-Carlo at all)
+        # must not consult the global numpy RNG: it is seeded DIFFERENTLY on every call, so a hidden dependence
+        # shows up as a Repeatable violation.  The few Monte-Carlo evaluations without a random_state argument
+        # (GLOBAL_RNG_KINDS) are only repeatable for a given global seed.
+        self.ncalls = getattr(self, "ncalls", 0) + 1
+        uses_global = kind in GLOBAL_RNG_KINDS or (kind in ("sample", "tiform") and isinstance(model, vc.TransformedModel))
+        np.random.seed(12345 if uses_global else 1000 + self.ncalls)
         import matplotlib
         matplotlib.use("Agg")
         import matplotlib.pyplot as plt
@@ -280,6 +286,7 @@ class World:
         raise Machinery(f"unknown evaluation kind {kind}")
 
 
+GLOBAL_RNG_KINDS = {"marginal_icdf", "plot_quantiles"}
 EVALS_ANY = ["pdf", "cdf_icdf", "sample", "marginal_icdf", "iform", "isorm", "hdc", "ds", "and", "or", "design", "plot", "save",
              "iform3d", "isorm3d", "pdf3d", "sample3d", "tiform", "hdc_limits"]
 EVALS_FITTED = ["plot_dep", "plot_quantiles"]
@@ -417,6 +424,16 @@ def run(ctx):
         conc = concretise(int(i), ctx.seed)
         recs.append(replay_history(vc, k + 1, hists[int(i)], conc, ctx.seed, tmp))
         meta.append((hists[int(i)], conc))
+    # repeat leg: every evaluation kind twice in a row on one model (the global RNG is seeded differently for
+    # the two calls unless the kind is Monte-Carlo without a random_state argument)
+    pool = EVALS_ANY + EVALS_FITTED
+    for j, kind in enumerate(pool):
+        for g in ((j % 6, (j + 3) % 6) if ctx.tier != "quick" else (j % 6,)):
+            h = [dict(op="new", m="A", e="")] + ([dict(op="fit", m="A", e="")] if kind in EVALS_FITTED or j % 2 else []) + \
+                [dict(op="eval", m="A", e="e1"), dict(op="eval", m="A", e="e1")]
+            conc = {"A": GETTERS[g], "B": GETTERS[g], "e1": kind, "e2": "pdf"}
+            recs.append(replay_history(vc, len(recs) + 1, h, conc, ctx.seed, tmp))
+            meta.append((h, conc))
     failing = ctx.validate("Trace_C19", "Trace_C19.cfg", recs)
     nexc = 0
     for r, (h, conc) in zip(recs, meta):
